@@ -40,6 +40,7 @@ def tyOf : Nat → Option Ty
   | 33 => some (.tuple [.int 32 true, .bool])
   | 34 => some (.map (.int 64 false) .str)
   | 35 => some (.map (.int 8 true) .unit)
+  | 36 => some (.enum [.tuple (b "T") [], .struct (b "S") [], .newtype (b "One") (.int 8 false)])
   | _ => none
 
 /-- `c04 <type id> <hexdoc>` -/
